@@ -438,8 +438,58 @@ func (x *Exec) spawn(st *State, s *ast.GoStmt) {
 	case *ast.SelectorExpr:
 		obj = x.info().Uses[f.Sel]
 	}
-	if _, isLit := ast.Unparen(e.Fun).(*ast.FuncLit); isLit {
-		// an anonymous goroutine: its body runs elsewhere and is not verified (listed as an assumption)
+	// A goroutine without contract: its body is not verified (listed as an assumption) - unless
+	// it operates on a channel the ghost accounting of this goroutine watches. The ghost state
+	// is sequential per goroutine; a delivery made by another goroutine at an undetermined
+	// moment is outside every proof that rests on it.
+	seenFn := map[*FuncInfo]bool{}
+	var scanBody func(body ast.Node, who string, depth int)
+	scanBody = func(body ast.Node, who string, depth int) {
+		ast.Inspect(body, func(n ast.Node) bool {
+			var ch ast.Expr
+			kind := ""
+			switch t := n.(type) {
+			case *ast.SendStmt:
+				ch, kind = t.Chan, "send"
+			case *ast.UnaryExpr:
+				if t.Op == token.ARROW {
+					ch, kind = t.X, "recv"
+				}
+			case *ast.RangeStmt:
+				if chanElem(x.info().TypeOf(t.X)) != nil {
+					ch, kind = t.X, "recv"
+				}
+			case *ast.CallExpr:
+				if id, ok := t.Fun.(*ast.Ident); ok && id.Name == "close" && len(t.Args) == 1 {
+					ch, kind = t.Args[0], "close"
+				} else if fn := x.staticCallee(t); fn != nil && fn.Pkg() != nil && fn.Pkg().Path() == x.fn.pkgPath() {
+					if g := x.prog.funcs[funcKeyOf(fn)]; g != nil && g.decl.Body != nil && x.sp.Funcs[funcKeyOf(fn)] == nil && !seenFn[g] && depth < 3 {
+						seenFn[g] = true
+						scanBody(g.decl.Body, who, depth+1)
+					}
+				}
+			}
+			if ch != nil {
+				if ev, _ := x.findEvent(kind, ch); ev != nil && len(ev.Clauses) > 0 {
+					var tags []string
+					for _, c := range ev.Clauses {
+						for _, tg := range c.Tags {
+							if !hasTag(tags, tg) {
+								tags = append(tags, tg)
+							}
+						}
+					}
+					x.broken(st, "ownership", fmt.Sprintf("go[%d:%s]:%s-%s-in-a-goroutine-without-contract", x.ordinal(s), who, kind, sane(types.ExprString(ch))), tags,
+						fmt.Sprintf("%s %s is performed by the goroutine started here (%s), which has no contract: its order relative to this goroutine's operations is undetermined", kind, types.ExprString(ch), who))
+				}
+			}
+			return true
+		})
+	}
+	if lit, isLit := ast.Unparen(e.Fun).(*ast.FuncLit); isLit {
+		// an anonymous goroutine: its body runs elsewhere and is not verified (listed as an
+		// assumption); hooked channel operations in it are ownership obligations that fail
+		scanBody(lit.Body, "func-literal", 0)
 		x.anonGoroutines = append(x.anonGoroutines, x.fn.name()+" line "+x.line(s))
 		st.note("go func literal")
 		return
@@ -453,59 +503,10 @@ func (x *Exec) spawn(st *State, s *ast.GoStmt) {
 	spec := x.sp.Funcs[key]
 	fi := x.prog.funcs[key]
 	if spec == nil && fi != nil && fi.decl.Body != nil {
-		// a goroutine without contract: its body is not verified (listed as an assumption) - unless
-		// it operates on a channel the ghost accounting of this goroutine watches. The ghost state
-		// is sequential per goroutine; a delivery made by another goroutine at an undetermined
-		// moment is outside every proof that rests on it.
-		hooked := 0
-		seen := map[*FuncInfo]bool{}
-		var scan func(f *FuncInfo, depth int)
-		scan = func(f *FuncInfo, depth int) {
-			if seen[f] || depth > 3 {
-				return
-			}
-			seen[f] = true
-			ast.Inspect(f.decl.Body, func(n ast.Node) bool {
-				var ch ast.Expr
-				kind := ""
-				switch t := n.(type) {
-				case *ast.SendStmt:
-					ch, kind = t.Chan, "send"
-				case *ast.UnaryExpr:
-					if t.Op == token.ARROW {
-						ch, kind = t.X, "recv"
-					}
-				case *ast.CallExpr:
-					if id, ok := t.Fun.(*ast.Ident); ok && id.Name == "close" && len(t.Args) == 1 {
-						ch, kind = t.Args[0], "close"
-					} else if fn := x.staticCallee(t); fn != nil && fn.Pkg() != nil && fn.Pkg().Path() == x.fn.pkgPath() {
-						if g := x.prog.funcs[funcKeyOf(fn)]; g != nil && g.decl.Body != nil && x.sp.Funcs[funcKeyOf(fn)] == nil {
-							scan(g, depth+1)
-						}
-					}
-				}
-				if ch != nil {
-					if ev, _ := x.findEvent(kind, ch); ev != nil && len(ev.Clauses) > 0 {
-						var tags []string
-						for _, c := range ev.Clauses {
-							for _, tg := range c.Tags {
-								if !hasTag(tags, tg) {
-									tags = append(tags, tg)
-								}
-							}
-						}
-						hooked++
-						x.broken(st, "ownership", fmt.Sprintf("go[%d:%s]:%s-%s-in-a-goroutine-without-contract", x.ordinal(s), lastName(key), kind, sane(types.ExprString(ch))), tags,
-							fmt.Sprintf("%s %s is performed by the goroutine started here (%s), which has no contract: its order relative to this goroutine's operations is undetermined", kind, types.ExprString(ch), key))
-					}
-				}
-				return true
-			})
-		}
-		scan(fi, 0)
+		seenFn[fi] = true
+		scanBody(fi.decl.Body, lastName(key), 0)
 		x.anonGoroutines = append(x.anonGoroutines, x.fn.name()+" line "+x.line(s)+" (go "+lastName(key)+")")
 		st.note("go " + lastName(key) + " (no contract)")
-		_ = hooked
 		return
 	}
 	if spec == nil || fi == nil {
